@@ -114,3 +114,13 @@ package gsm7encoding
 //@ func Encode
 //@   abstract (err == nil) <==> gsmencodable(src)
 //@   abstract err == nil ==> content(dst) == gsmseptets(src)
+
+//@ uninterpreted gsmvalid(Bytes) bool
+
+//@ func IsValidGSM7String
+//@   props C08,C03
+//@   abstract result <==> gsmvalid(text)
+//@   ensures [C03 alloc] alloc <= 4 * len(text) + 64
+//@   loop 1
+//@     invariant -1 <= rangeindex && alloc <= entry(alloc)
+//@     decreases runecount(text) - rangeindex
